@@ -24,3 +24,10 @@ package registration
 //@   ensures[C03 reject] err != nil ==> ret == nil
 //@   ensures[C03 valid] err == nil ==> ret != nil && fresh(ret) && req != nil && !IsNil(storage)
 //@   |   && validReq(ret, req, opts(opt).WithNotBeforeClockSkew, opts(opt).WithNotAfterClockSkew, now(0))
+
+// ---------------------------------------------------------------- FetchNodeCredentials (C01, C13, C14; extended below)
+
+//@ func registration.FetchNodeCredentials
+//@   trusted -- placeholder until the C01 contract is in place
+//@   ensures[* failclosed] err != nil ==> ret == nil
+//@   modifies StNodeInfo, StToken
